@@ -9,6 +9,7 @@
       label binary nodes with exactly this `guess`, see C08.auto_roundtrip / C20.ptb_roundtrip.
 -/
 import Depccg.Props.SearchBasics
+import Depccg.Props.C12Glue
 import Depccg.Tree
 import Depccg.Props.C13
 
